@@ -233,9 +233,18 @@ qb_loop_timer_add(struct qb_loop * lp,
 	if (timer_handle_out) {
 		*timer_handle_out = (((uint64_t) (t->check)) << 32) | t->install_pos;
 	}
-	return timerlist_add_duration(&my_src->timerlist,
-				      make_job_from_tmo, t,
-				      nsec_duration, &t->timerlist_handle);
+	res = timerlist_add_duration(&my_src->timerlist,
+				     make_job_from_tmo, t,
+				     nsec_duration, &t->timerlist_handle);
+	if (res != 0) {
+		/* nothing is pending: give the slot back, the handle is stale */
+		t->check = 0;
+		t->state = QB_POLL_ENTRY_EMPTY;
+		if (timer_handle_out) {
+			*timer_handle_out = 0;
+		}
+	}
+	return res;
 }
 
 int32_t
